@@ -723,3 +723,35 @@ def c17n(ctx):
                       fail='%s.%s stores request dependent state on an object shared between request threads (%s)' % (cname, fn.name, '; '.join(bad)))
     if n < 10:
         raise Undecided('only %d methods of the shared geometry classes found' % n)
+
+
+@rule('C17.o', floor=2)
+def c17o(ctx):
+    """the SRS of an upstream GetFeatureInfo is one of the configured list, by its configured code: a request SRS that merely *equals*
+    a supported one (EPSG:900913 / EPSG:3857) is replaced by the entry of the list before its code is written into the URL -- the code
+    that goes out is `supported_srs.best_srs(<srs>).srs_code` whenever a list is configured"""
+    fn = ctx.fn('mapproxy/client/wms.py:WMSInfoClient._query_url')
+    g = fn.cfg
+    sets = g.find_stmts(lambda s: isinstance(s, ast.Assign) and unparse(s.targets[0]).endswith('params.srs'))
+    if not sets:
+        raise Undecided('WMSInfoClient._query_url: params.srs is not set')
+    ok = True
+    for n in sets:
+        v = g.stmt[n].value
+        owner = v.value if isinstance(v, ast.Attribute) and v.attr == 'srs_code' else None
+        if owner is None:
+            ok = False
+            continue
+        if is_call(fn.canon.expr(owner), 'self.supported_srs.best_srs'):
+            continue
+        # a local that is re-bound to the entry of the list (best_srs) under "a list is configured" before its code is written out
+        rebinds = g.find_stmts(lambda s: isinstance(s, ast.Assign) and isinstance(owner, ast.Name) and unparse(s.targets[0]) == owner.id and
+                               is_call(s.value, 'self.supported_srs.best_srs'))
+        have_list = lambda at: at.op is None and unparse(at.expr) == 'self.supported_srs'       # noqa: E731
+        ok = ok and bool(rebinds) and all(g.guarded(r, have_list, True) and g.dominates(0, r) and n in g.reachable(r) for r in rebinds)
+    ctx.check(ok, 'WMSInfoClient._query_url:configured-code', 'with a configured list the SRS code of the request is that of supported_srs.best_srs(..)', fn,
+              fail='WMSInfoClient._query_url writes the SRS code of the request into the upstream URL: an alias of a supported SRS is sent '
+                   'under a code the source is not configured for')
+    gi = ctx.fn('mapproxy/client/wms.py:WMSInfoClient.get_info')
+    tq = gi.cfg.find(lambda x: is_call(x, 'self._get_transformed_query'))
+    ctx.check(bool(tq), 'WMSInfoClient.get_info:unsupported-srs-transformed', 'a request in an unsupported SRS is transformed first', gi)
